@@ -44,6 +44,7 @@ class Mon:
 
     # -- recording
     def violation(self, key, msg):
+        key = key + getattr(self, "key_suffix", "")
         if key in self._vkeys:
             self._vkeys[key]["count"] += 1
             return
@@ -171,8 +172,15 @@ def install_ns(mon):
             shadow.append(r["h"])
         elif r["t"] == "trunc":
             del shadow[r["n"]:]
+            if r["n"] == 0:
+                mon.key_suffix = ""
         elif r["t"] == "ck":
             ckpts.append(r)
+        elif r["t"] == "taint":
+            # an earlier process of this history resumed from a checkpoint
+            # taken in the middle of an iteration: everything observed from
+            # then on carries that signature
+            mon.key_suffix = r["suffix"]
     st["shadow"] = shadow
     st["ckpts"] = ckpts
 
@@ -440,11 +448,16 @@ def install_ns(mon):
             mon.classes.add("resumed-from-mid-iteration-checkpoint")
         suffix = f"@{mid}" if mid else ""
         st["suffix"] = suffix
+        if suffix and not getattr(mon, "key_suffix", ""):
+            mon.key_suffix = suffix
+            mon.shadow({"t": "taint", "suffix": suffix})
+            suffix = ""  # added by Mon.violation from now on
         n = len(self.nested_samples)
         got = [h(b_) for b_ in row_bytes(np.array(self.nested_samples))] \
             if n else []
         if got != st["shadow"][:n]:
-            V("resume:nested-samples!=shadow-prefix" + suffix,
+            V("resume:nested-samples!=shadow-prefix" + (
+                "" if getattr(mon, "key_suffix", "") else suffix),
               f"restored {n} records differ from the recorded history")
         # the run continues from here: drop what the killed process did after
         del st["shadow"][n:]
@@ -454,7 +467,8 @@ def install_ns(mon):
             if len(self.state.logLs) != n + 1 or \
                     len(self.insertion_indices) != self.iteration or \
                     n != self.iteration:
-                V("resume:counts-disagree" + suffix,
+                V("resume:counts-disagree" + (
+                    "" if getattr(mon, "key_suffix", "") else suffix),
                   f"(it,nested,idx,state)={cur}")
         return None
 
@@ -1026,3 +1040,270 @@ def _post_repeat(mon, fs, job):
 
 POST["digest"] = _post_digest
 POST["repeat"] = _post_repeat
+
+
+# --------------------------------------------------------------------------
+# Monitor "ckpt": digest of the sampler at every checkpoint write and at the
+# moment a restored sampler is about to continue (C11, C12, C13)
+def sampler_digest(sampler):
+    from . import digest as D
+    from nessai.samplers.nestedsampler import NestedSampler
+
+    skip = set()
+    d = {}
+    state = dict(vars(sampler))
+    if isinstance(sampler, NestedSampler):
+        active = state.pop("proposal", None)
+        if active is None:
+            d["active_proposal"] = "None"
+        elif active is state.get("_flow_proposal"):
+            d["active_proposal"] = "flow"
+        elif active is state.get("_uninformed_proposal"):
+            d["active_proposal"] = "uninformed"
+        else:
+            d["active_proposal"] = "other"
+    for k in sorted(state):
+        if k in D.EXCLUDE_NAMES or k in skip:
+            continue
+        D.flat(state[k], k, d)
+    weights = {}
+    for name in ("_flow_proposal", "proposal"):
+        p = getattr(sampler, name, None)
+        fl = getattr(p, "flow", None)
+        if fl is not None:
+            for k, v in D.flow_weights(fl).items():
+                weights[f"{name}.{k}"] = v
+    return d, weights
+
+
+def install_ckpt(mon):
+    import nessai.samplers.base as base
+    from nessai.model import Model
+    from nessai.samplers.nestedsampler import NestedSampler
+    from nessai.samplers.importancesampler import ImportanceNestedSampler
+    from . import digest as D
+
+    path = os.path.join(mon.hdir, "ckpt.jsonl")
+    st = {"serial": 0, "tally": 0, "resumed_evals": None}
+    info = mon.data.setdefault("ckpt", {})
+    if os.path.exists(path):
+        with open(path) as f:
+            for line in f:
+                try:
+                    st["serial"] = max(st["serial"],
+                                       json.loads(line)["serial"])
+                except ValueError:
+                    pass
+
+    def last_records(n=2):
+        recs = []
+        if os.path.exists(path):
+            with open(path) as f:
+                for line in f:
+                    try:
+                        recs.append(json.loads(line))
+                    except ValueError:
+                        pass
+        return recs[-n:]
+
+    prev_dump = base.safe_file_dump
+
+    def dump(obj, filename, *a, **k):
+        if isinstance(obj, base.BaseNestedSampler):
+            st["serial"] += 1
+            d, w = sampler_digest(obj)
+            rec = {
+                "serial": st["serial"], "pid": os.getpid(),
+                "iteration": int(obj.iteration), "digest": d, "weights": w,
+                "evals": int(obj.model.likelihood_evaluations),
+                "sampling_time": obj.sampling_time.total_seconds(),
+                "mid": bool(mon.in_consume or mon.in_finalise),
+                "finalised": bool(obj.finalised),
+            }
+            if isinstance(obj, ImportanceNestedSampler):
+                for nm in ("training_samples", "iid_samples"):
+                    store = getattr(obj, nm, None)
+                    if store is not None and store.log_q is not None:
+                        np.save(os.path.join(
+                            mon.hdir, f"logq_{st['serial']}_{nm}.npy"),
+                            store.log_q)
+            with open(path, "a") as f:
+                f.write(json.dumps(rec) + "\n")
+            mon.count("ckpt.writes")
+            info["last_serial"] = st["serial"]
+        return prev_dump(obj, filename, *a, **k)
+
+    base.safe_file_dump = dump
+
+    # hashes of the weights every FlowModel.save_weights call wrote
+    from nessai.flowmodel.base import FlowModel
+
+    wpath = os.path.join(mon.hdir, "weights.jsonl")
+
+    def after_save(self, _t, _r):
+        import hashlib
+
+        hsh = hashlib.sha1()
+        for k, v in sorted(self.model.state_dict().items()):
+            hsh.update(k.encode())
+            hsh.update(v.detach().cpu().numpy().tobytes())
+        with open(wpath, "a") as f:
+            f.write(json.dumps({"h": hsh.hexdigest()[:16]}) + "\n")
+
+    wrap(FlowModel, "save_weights", None, after_save)
+
+    def saved_weight_hashes():
+        out = []
+        if os.path.exists(wpath):
+            with open(wpath) as f:
+                for line in f:
+                    try:
+                        out.append(json.loads(line)["h"])
+                    except ValueError:
+                        pass
+        return out
+
+    # independent tally of counted likelihood evaluations
+    def tally_before(self, x, *a, **k):
+        st["tally"] += int(np.size(x))
+
+    wrap(Model, "evaluate_log_likelihood", tally_before, None)
+    wrap(Model, "batch_evaluate_log_likelihood", tally_before, None)
+
+    IGNORE_AT_RESUME = (
+        # set by check_resume / initialise when re-attaching
+        ".log_q",
+    )
+
+    def compare(sampler, where):
+        V = mon.violation
+        recs = last_records(2)
+        mon.count("ckpt.resume_checks")
+        if not recs:
+            info["resume_without_record"] = True
+            return
+        d, w = sampler_digest(sampler)
+        cands = list(reversed(recs))  # newest first
+        allowed = mon.job.get("ckpt_allow_previous", False)
+        best = None
+        for idx, rec in enumerate(cands):
+            df = D.diff(rec["digest"], d, ignore=IGNORE_AT_RESUME)
+            wdf = D.diff(rec["weights"], w)
+            if best is None:
+                best = (rec, df, wdf)
+            if not df and not wdf:
+                best = (rec, df, wdf)
+                info["resumed_serial"] = rec["serial"]
+                info["resumed_is_previous"] = idx > 0
+                if idx > 0 and not allowed:
+                    V("resume:loaded-stale-checkpoint",
+                      f"state equals checkpoint {rec['serial']} but "
+                      f"{cands[0]['serial']} was completed later")
+                break
+            if not allowed:
+                break
+        rec, df, wdf = best
+        info["resumed_iteration"] = int(sampler.iteration)
+        if df:
+            fields = sorted({k.split("[")[0] for k, _, _ in df})
+            V(f"resume:state-differs@{where}:" + ",".join(fields[:4]),
+              "; ".join(f"{k}: {a} -> {b}" for k, a, b in df[:6])
+              + f" ({len(df)} fields)")
+        if wdf and not isinstance(sampler, ImportanceNestedSampler):
+            # The weights file is separate from the checkpoint and is
+            # rewritten by every training: the restored flow must be the one
+            # of the checkpoint or of a training saved since (or its .old
+            # predecessor).  Before the first training nothing was saved and
+            # the (unused) initial weights are not observable.
+            saved = saved_weight_hashes()
+            ok_set = set(saved[-2:])
+            trained = rec["digest"].get(
+                "_flow_proposal.training_count", "0") != "0"
+            wdf = [(k, a, b) for k, a, b in wdf
+                   if trained and b not in ok_set]
+            if wdf:
+                info["weights_saved"] = saved[-3:]
+        if wdf:
+            V(f"resume:flow-weights-differ@{where}",
+              "; ".join(f"{k}: {a} -> {b}" for k, a, b in wdf[:4]))
+        ev = int(sampler.model.likelihood_evaluations)
+        if ev != rec["evals"]:
+            V(f"resume:evaluation-count@{where}",
+              f"restored {ev}, checkpoint had {rec['evals']}")
+        stime = sampler.sampling_time.total_seconds()
+        if abs(stime - rec["sampling_time"]) > 1e-6:
+            V(f"resume:sampling-time@{where}",
+              f"restored {stime}, checkpoint had {rec['sampling_time']}")
+        st["resumed_evals"] = ev
+        st["tally"] = 0
+        info["evals_at_resume"] = ev
+        # re-derived density tables (importance sampler)
+        if isinstance(sampler, ImportanceNestedSampler):
+            for nm in ("training_samples", "iid_samples"):
+                store = getattr(sampler, nm, None)
+                fn = os.path.join(mon.hdir,
+                                  f"logq_{rec['serial']}_{nm}.npy")
+                if store is None or not os.path.exists(fn):
+                    continue
+                old = np.load(fn)
+                new = store.log_q
+                if new is None or old.shape != new.shape:
+                    V(f"resume:log_q-shape:{nm}",
+                      f"{old.shape} vs {None if new is None else new.shape}")
+                    continue
+                with np.errstate(invalid="ignore"):
+                    ok = (old == new) | (
+                        np.abs(old - new) <= 1e-3 + 1e-5 * np.abs(old))
+                if not ok.all():
+                    V(f"resume:log_q-differs:{nm}",
+                      f"{int((~ok).sum())} entries beyond float32 accuracy")
+
+    flags = {"ns": False, "ins": False}
+
+    def before_check_resume(self):
+        return bool(getattr(self, "resumed", False))
+
+    def after_check_resume(self, was_resumed, _):
+        if was_resumed and not flags["ns"]:
+            flags["ns"] = True
+            mon.classes.add("resumed")
+            compare(self, "check_resume")
+
+    wrap(NestedSampler, "check_resume", before_check_resume,
+         after_check_resume)
+
+    def before_init(self):
+        return bool(getattr(self, "resumed", False))
+
+    def after_init(self, was_resumed, _):
+        if was_resumed and not flags["ins"]:
+            flags["ins"] = True
+            mon.classes.add("resumed")
+            compare(self, "initialise")
+
+    wrap(ImportanceNestedSampler, "initialise", before_init, after_init)
+
+    def final_accounting(fs):
+        V = mon.violation
+        ns = fs.ns
+        ev = int(ns.model.likelihood_evaluations)
+        if st["resumed_evals"] is not None:
+            exp = st["resumed_evals"] + st["tally"]
+            if ev != exp:
+                V("accounting:evaluations!=checkpoint+batches",
+                  f"final {ev}, checkpoint {st['resumed_evals']} + "
+                  f"{st['tally']} evaluated since")
+        info["final_evals"] = ev
+        info["final_sampling_time"] = ns.sampling_time.total_seconds()
+
+    mon.final_accounting = final_accounting
+
+
+def _post_accounting(mon, fs, job):
+    fa = getattr(mon, "final_accounting", None)
+    if fa:
+        fa(fs)
+
+
+INSTALLERS["ckpt"] = install_ckpt
+POST["accounting"] = _post_accounting
